@@ -19,6 +19,11 @@
 (*   dd         data-descriptor style: none | with/without signature x     *)
 (*              32/64-bit sizes; then the local CRC and sizes are zero     *)
 (*   lzl        (lz64 only) the local ZIP64 record is placed last          *)
+(*   aes        the entry is WinZip-AES encrypted: an AE-x record (0x9901,  *)
+(*              7 bytes: version, vendor, strength, the real method) sits   *)
+(*              in both extra fields, before or after the other records     *)
+(*              (the ZIP64 record is placed relative to all of them); the   *)
+(*              header's method field says 99                              *)
 (* and, per archive, the prepended bytes, the bytes between entries, and   *)
 (* the order of the central directory.                                     *)
 (*                                                                         *)
@@ -35,11 +40,15 @@
 EXTENDS ZipFormat, TLC
 
 CONSTANT RBUG       \* "none" | "cs_first" | "either_both" | "always_all" | "central_xlen" | "local_sizes" | "first_record_only"
+                    \* | "aes_swallows_next" (defect D18: the AE-x record's own bytes are skipped twice, so the walk lands inside
+                    \*   the record that follows it and nothing after the AE-x record is understood)
 
 DDs == {"none", "sig32", "nosig32", "sig64", "nosig64"}
 DDLen(dd) == IF dd = "none" THEN 0 ELSE IF dd = "sig32" THEN 16 ELSE IF dd = "nosig32" THEN 12 ELSE IF dd = "sig64" THEN 24 ELSE 20
 OtherRec(tag) == [id |-> 51966, len |-> 3, h |-> tag, vals |-> <<>>]      \* 0xcafe, 3 bytes: a record no reader knows
 OtherLen == 7
+AesRec == [id |-> 39169, len |-> 7, h |-> "AE", vals |-> <<>>]           \* 0x9901
+WithAes(ch, oth) == IF ch.aes = "before" THEN <<AesRec>> \o oth ELSE IF ch.aes = "after" THEN oth \o <<AesRec>> ELSE oth
 
 \* ---- emission -----------------------------------------------------------
 Sent(v, f, ch) == v >= Thr32 \/ f \in ch.forced
@@ -48,10 +57,10 @@ ZVals(ch, off) ==
      \o (IF Sent(off, "off", ch) THEN <<off>> ELSE <<>>)
 ZRec(vals) == IF vals = <<>> THEN <<>> ELSE <<[id |-> 1, len |-> 8 * Len(vals), h |-> "z64", vals |-> vals]>>
 CentralExtra(ch, off) ==
-   LET oth == [j \in 1..ch.nother |-> OtherRec("c")] IN
+   LET oth == WithAes(ch, [j \in 1..ch.nother |-> OtherRec("c")]) IN
    IF ch.zlast THEN oth \o ZRec(ZVals(ch, off)) ELSE ZRec(ZVals(ch, off)) \o oth
 LocalExtra(ch) ==
-   LET oth == [j \in 1..ch.lother |-> OtherRec("l")]
+   LET oth == WithAes(ch, [j \in 1..ch.lother |-> OtherRec("l")])
        \* a data-descriptor entry does not know its sizes when the header is written
        z   == IF ch.lz64 THEN <<[id |-> 1, len |-> 16, h |-> "lz64",
                                  vals |-> IF ch.dd = "none" THEN <<ch.us, ch.cs>> ELSE <<0, 0>>]>> ELSE <<>>
@@ -62,11 +71,13 @@ EmitCentral(ch, off) ==
    [us32 |-> IF Sent(ch.us, "us", ch) THEN Thr32 ELSE ch.us,
     cs32 |-> IF Sent(ch.cs, "cs", ch) THEN Thr32 ELSE ch.cs,
     off32 |-> IF Sent(off, "off", ch) THEN Thr32 ELSE off,
-    crc |-> ch.crc, dd |-> ch.dd # "none", nlen |-> ch.nlen, extra |-> CentralExtra(ch, off)]
+    crc |-> ch.crc, dd |-> ch.dd # "none", nlen |-> ch.nlen, extra |-> CentralExtra(ch, off),
+    method |-> IF ch.aes = "none" THEN "m" ELSE "99"]
 EmitLocal(ch) ==
    [us32 |-> IF ch.lz64 THEN Thr32 ELSE IF ch.dd = "none" THEN ch.us ELSE 0,
     cs32 |-> IF ch.lz64 THEN Thr32 ELSE IF ch.dd = "none" THEN ch.cs ELSE 0,
-    crc |-> IF ch.dd = "none" THEN ch.crc ELSE "00000000", dd |-> ch.dd # "none", nlen |-> ch.nlen, extra |-> LocalExtra(ch)]
+    crc |-> IF ch.dd = "none" THEN ch.crc ELSE "00000000", dd |-> ch.dd # "none", nlen |-> ch.nlen, extra |-> LocalExtra(ch),
+    method |-> IF ch.aes = "none" THEN "m" ELSE "99"]
 \* bytes an entry occupies: local header, data, data descriptor
 EntryLen(ch) == LFHSize + ch.nlen + XLenOf(LocalExtra(ch)) + ch.cs + DDLen(ch.dd)
 
@@ -93,20 +104,23 @@ WalkExtra(x, st, k) ==
    ELSE LET r == Head(x) IN
         IF r.id = 1 /\ ~(RBUG = "first_record_only" /\ k > 1)
         THEN WalkExtra(Tail(x), TakeZ64(st, r.vals), k + 1)
+        ELSE IF r.id = AesRec.id                                         \* the AE-x record: encryption info and the real method
+        THEN IF RBUG = "aes_swallows_next" THEN [st EXCEPT !.aes = TRUE, !.method = "m"]
+             ELSE WalkExtra(Tail(x), [st EXCEPT !.aes = TRUE, !.method = "m"], k + 1)
         ELSE WalkExtra(Tail(x), st, k + 1)                               \* unknown records are skipped by their length
 \* what the reader reports for one entry: c, l = emitted central / local record; prefix = bytes prepended to the archive
 ReadEntry(c, l, prefix) ==
-   LET st == WalkExtra(c.extra, [us |-> c.us32, cs |-> c.cs32, off |-> c.off32, exact |-> TRUE], 1)
+   LET st == WalkExtra(c.extra, [us |-> c.us32, cs |-> c.cs32, off |-> c.off32, exact |-> TRUE, aes |-> FALSE, method |-> c.method], 1)
        hdr == prefix + st.off
        lx == IF RBUG = "central_xlen" THEN XLenOf(c.extra) ELSE XLenOf(l.extra)
-       ls == WalkExtra(l.extra, [us |-> l.us32, cs |-> l.cs32, off |-> 0, exact |-> TRUE], 1)
+       ls == WalkExtra(l.extra, [us |-> l.us32, cs |-> l.cs32, off |-> 0, exact |-> TRUE, aes |-> FALSE, method |-> l.method], 1)
    IN [usize |-> IF RBUG = "local_sizes" THEN ls.us ELSE st.us,
        csize |-> IF RBUG = "local_sizes" THEN ls.cs ELSE st.cs,
        crc |-> IF RBUG = "local_sizes" THEN l.crc ELSE c.crc,
-       hdr |-> hdr, dstart |-> hdr + LFHSize + l.nlen + lx, exact |-> st.exact]
+       hdr |-> hdr, dstart |-> hdr + LFHSize + l.nlen + lx, exact |-> st.exact, aes |-> st.aes, method |-> st.method]
 \* the truth about the entry placed at absolute position `at` of a file with `prefix` prepended bytes
 Truth(ch, at) ==
    [usize |-> ch.us, csize |-> ch.cs, crc |-> ch.crc, hdr |-> at,
-    dstart |-> at + LFHSize + ch.nlen + XLenOf(LocalExtra(ch)), exact |-> TRUE]
+    dstart |-> at + LFHSize + ch.nlen + XLenOf(LocalExtra(ch)), exact |-> TRUE, aes |-> ch.aes # "none", method |-> "m"]
 EntryFaithful(ch, at, prefix) == ReadEntry(EmitCentral(ch, at - prefix), EmitLocal(ch), prefix) = Truth(ch, at)
 =============================================================================
